@@ -147,6 +147,25 @@ func clientinfoProbe(r *rng, n int) error {
 				specs = append(specs, sx(e.spec+id))
 				toks = append(toks, e.tok, sx(id))
 			}
+			// a profile for what arrives at the addresses of the loopback interface (a second listener), as
+			// `-profile lo=<id>` gives: the same client is then seen under two profiles in one daemon lifetime
+			var loIPs []string
+			if r.coin(45) {
+				if ifc, _ := net.InterfaceByName("lo"); ifc != nil {
+					if addrs, _ := ifc.Addrs(); len(addrs) > 0 {
+						for _, a := range addrs {
+							if n, ok := a.(*net.IPNet); ok {
+								loIPs = append(loIPs, hx(ipNorm(n.IP)))
+							}
+						}
+					}
+				}
+				if len(loIPs) > 0 {
+					id := []string{"lo0001", "fedcba"}[r.intn(2)]
+					specs = append(specs, sx("lo="+id))
+					toks = append(toks, "I"+strings.Join(loIPs, ","), sx(id))
+				}
+			}
 			if r.coin(60) {
 				id := []string{"dflt01", "abc123"}[r.intn(2)]
 				specs = append(specs, sx(id))
@@ -173,8 +192,12 @@ func clientinfoProbe(r *rng, n int) error {
 				if noSources {
 					ba, bm = nil, nil
 				}
-				qs = append(qs, strings.Join([]string{ip, mac, hexList(ba), hexList(bm)}, ";"))
-				mq = append(mq, strings.Join([]string{sx(ip), hx(net.ParseIP(ip)), hx(ipNorm(net.ParseIP(ip))), mac, hexList(ba), hexList(bm)}, ";"))
+				local := "127.0.0.1"
+				if len(loIPs) > 0 && r.coin(50) {
+					local = "10.7.7.7" // arrived at another interface's address
+				}
+				qs = append(qs, strings.Join([]string{ip, mac, hexList(ba), hexList(bm), local}, ";"))
+				mq = append(mq, strings.Join([]string{sx(ip), hx(net.ParseIP(ip)), hx(ipNorm(net.ParseIP(ip))), mac, hexList(ba), hexList(bm), hx(ipNorm(net.ParseIP(local)))}, ";"))
 			}
 			cmdName := "cis "
 			if noSources {
